@@ -41,8 +41,18 @@ Record ccase := mkC {
   k_bs : list (ext * option Q);          (* upper bound, count (None = NaN) *)
   k_qs : list (Q * res * bool)           (* ascending quantiles, BucketQuantile, forcedMonotonic *)
 }.
-Inductive case := CN (c : ncase) | CC (c : ccase).
-Definition c_id (c : case) : Z := match c with CN n => n_id n | CC k => k_id k end.
+(* a range query of histogram_count / histogram_sum / histogram_avg over a plain selector of one
+   histogram series: the stored samples (timestamp, count, sum) and, per step, what the engine
+   returned (None = no sample at that step) *)
+Record rcase := mkR {
+  r_id : Z;
+  r_lookback : Z;
+  r_samples : list (Z * Q * res);
+  r_steps : list (Z * option res * option res * option res)
+}.
+Inductive case := CN (c : ncase) | CC (c : ccase) | CR (c : rcase).
+Definition c_id (c : case) : Z :=
+  match c with CN n => n_id n | CC k => k_id k | CR r => r_id r end.
 
 (* ---- tolerant comparisons ---- *)
 Definition rel9 : Q := 1 # 1000000000.
@@ -259,8 +269,48 @@ Definition holds_c (c : ccase) : bool :=
                   | _ => false
                   end) (k_qs c).
 
-Definition agree (c : case) : bool := match c with CN n => agree_n n | CC k => agree_c k end.
-Definition holds (c : case) : bool := match c with CN n => holds_n n | CC k => holds_c k end.
+(* ================================================================ range queries *)
+(* the sample an instant vector selector sees at time t: the latest one with t - lookback < ts <= t *)
+Fixpoint select_sample (lb t : Z) (ss : list (Z * Q * res)) (acc : option (Q * res)) : option (Q * res) :=
+  match ss with
+  | [] => acc
+  | (ts, c, sm) :: r =>
+      if (ts <=? t)%Z then select_sample lb t r (if (t - lb <? ts)%Z then Some (c, sm) else None)
+      else acc
+  end.
+
+Definition ores (chk : res -> res -> bool) (o : option res) (m : option res) : bool :=
+  match o, m with
+  | None, None => true
+  | Some a, Some b => chk a b
+  | _, _ => false
+  end.
+
+(* model: the histogram functions of model/Quantile.v applied to the selected stored histogram *)
+Definition agree_r (c : rcase) : bool :=
+  forallb (fun st =>
+    let '(t, oc, os, oa) := st in
+    let sel := select_sample (r_lookback c) t (r_samples c) None in
+    let hh := option_map (fun cs => mkH (fst cs) (snd cs) false true false []) sel in
+    ores res_exact oc (option_map hist_count hh) &&
+    ores res_exact os (option_map hist_sum hh) &&
+    ores res_close oa (option_map hist_avg hh)) (r_steps c).
+
+(* property: every step reports the count, sum and their ratio of the histogram stored for that step *)
+Definition holds_r (c : rcase) : bool :=
+  forallb (fun st =>
+    let '(t, oc, os, oa) := st in
+    match select_sample (r_lookback c) t (r_samples c) None with
+    | None => match oc, os, oa with None, None, None => true | _, _, _ => false end
+    | Some (cnt, sm) =>
+        ores res_exact oc (Some (R (Fin cnt))) && ores res_exact os (Some sm) &&
+        ores res_close oa (Some (fdiv sm cnt))
+    end) (r_steps c).
+
+Definition agree (c : case) : bool :=
+  match c with CN n => agree_n n | CC k => agree_c k | CR r => agree_r r end.
+Definition holds (c : case) : bool :=
+  match c with CN n => holds_n n | CC k => holds_c k | CR r => holds_r r end.
 
 Definition mismatches (cs : list case) : list Z := map c_id (filter (fun c => negb (agree c)) cs).
 Definition failing_holds (cs : list case) : list Z := map c_id (filter (fun c => negb (holds c)) cs).
